@@ -182,7 +182,11 @@ func checkC09Seq(job *Job, res *Result) {
 			_ = szBefore
 			c.Close()
 			in.Stop()
-			in2 := x.Start("L2", dir, 9003, nil)
+			in2, serr := x.TryStart("L2", dir, 9003, nil)
+			if serr != nil {
+				viol("restart-fails-on-shrunk-log", fmt.Sprintf("the server does not start on the shrunk log: %v", serr))
+				return
+			}
 			c2 := x.Dial(in2.Addr)
 			after := fullDump(c2)
 			ttlAfter := ttlDump(c2)
@@ -234,6 +238,8 @@ func copyDir(src, dst string) {
 // ---------------------------------------------------------------- SCHED
 
 type c09Params struct {
+	// QuickBound, if > 0, lowers the preemption bound of this scenario in the quick tier
+	QuickBound int       `json:"quick_bound,omitempty"`
 	Name    string       `json:"name"`
 	Pre     [][]string   `json:"pre"`
 	Writers [][][]string `json:"writers"`
@@ -320,7 +326,13 @@ func c09Run(job *Job, p c09Params, prefix []int) (out schedOut) {
 		}
 		c.Close()
 		in.Stop()
-		in2 := x.Start("L2", dir, 9002, nil)
+		in2, serr := x.TryStart("L2", dir, 9002, nil)
+		if serr != nil {
+			out.Obs = "RESTART-FAILS"
+			out.VSig = "C09/restart-fails-on-shrunk-log:" + p.Name
+			out.VDetail = fmt.Sprintf("the server does not start on the log the rewrite produced: %v", serr)
+			return
+		}
 		c2 := x.Dial(in2.Addr)
 		after, _ := serverCanon(c2)
 		afterFull := fullDump(c2)
@@ -397,6 +409,8 @@ func c09SchedScenarios(tier string) []c09Params {
 	big = append(big, w("SET kc a POINT 3 3"), w("SET kc b POINT 3 4"), w("SET kd zz POINT 4 4"))
 	scs := []c09Params{
 		{Name: "drop-collection-between-its-id-batches", Pre: big, Writers: [][][]string{one("DROP kb")}},
+		{QuickBound: 1, Name: "second-aofshrink-while-running", Pre: pre, Writers: [][][]string{one("AOFSHRINK", "SET ka z POINT 9 9", "DEL kb b")}},
+		S("fset-then-del-ahead-of-cursor", one("FSET kc a f 3", "DEL kc a")),
 		S("set-new-key-before-cursor", one("SET k0 n POINT 9 9")),
 		S("set-new-key-after-cursor", one("SET kz n POINT 9 9")),
 		S("set-existing", one("SET kb a POINT 5 5")),
@@ -441,7 +455,11 @@ func checkC09Sched(job *Job, res *Result) {
 			continue
 		}
 		sc := schedScenario{Name: "c09." + p.Name, Params: p, Run: func(prefix []int) schedOut { return c09Run(job, p, prefix) }}
-		st := exploreSched(job, res, sc, bound)
+		b := bound
+		if job.Tier != "thorough" && p.QuickBound > 0 && p.QuickBound < b {
+			b = p.QuickBound
+		}
+		st := exploreSched(job, res, sc, b)
 		res.Extra[sc.Name] = map[string]any{"execs": st.Execs, "outcomes": len(st.Outcomes), "max_choice_points": st.MaxPoints}
 		if p.Name == "set-existing" {
 			res.Sample(map[string]any{"scenario": sc.Name, "params": p, "outcomes": len(st.Outcomes)})
